@@ -36,6 +36,7 @@ def shards(tier, seed):
         out.append({"kind": "gen", "n": 8000 if tier == "quick" else 400000})
     out.append({"kind": "pair", "n": 120 if tier == "quick" else 20000})
     out.append({"kind": "pair", "n": 120 if tier == "quick" else 20000})
+    out.append({"kind": "eof_state", "ks": [1, 2] if tier == "quick" else [1, 2, 3, 4], "noise_runs": 60 if tier == "quick" else 2000})
     return out
 
 
@@ -72,7 +73,83 @@ def same(a, b) -> bool:
 
 
 def run_shard(spec):
-    return {"exh": run_read, "gen": run_read, "pair": run_pair}[spec["kind"]](spec)
+    return {"exh": run_read, "gen": run_read, "pair": run_pair, "eof_state": run_eof_state}[spec["kind"]](spec)
+
+
+def run_eof_state(spec):
+    """Once a reader file has reported the end of the data (peer closed), the channel is closed for the same thread:
+    a writer file on it refuses with OSError.  Driven under line noise and a single-pre-emption sweep over the code
+    that processes the peer's close."""
+    from execnet import gateway_base as gb
+    from vlib import imodel
+    from vlib import pairs
+
+    res = Result()
+    rng = core.rng_for("C19e", spec["tier"], spec["seed"])
+    pre = imodel.Preempt(core.REPO_SRC)
+    pre.install()
+    M = codec.MSG
+    try:
+        lines = imodel.function_lines(gb.ChannelFactory._local_close, gb.ChannelFactory._no_longer_opened, gb.ChannelFileRead.read,
+                                      gb.Channel.receive, gb.Message._channel_close)
+        todo = [(ln, k) for ln in lines for k in spec["ks"]] + [(None, i) for i in range(spec["noise_runs"])]
+        peer = pairs.ScriptedPeer(tee=False)
+        wd = pairs.Watchdog()
+        for ln, k in todo:
+            if res.enough(3):
+                break
+            ch = peer.gw.newchannel()
+            items = [rng.choice(("ab", "c\n", "")) for _ in range(rng.randint(0, 3))]
+            f = ch.makefile("r")
+            w = ch.makefile("w")
+            if ln is None:
+                pre.set_noise(rng.getrandbits(32), 0.2)
+            else:
+                pre.restart()
+                pre.set_sweep(ln[0], ln[1], k, stall=0.03)
+
+            def reader():
+                out = []
+                while True:
+                    x = f.read(2)
+                    if not x:
+                        break
+                    out.append(x)
+                # the end of the data has been reported to this thread: from here on the channel is closed for it
+                st = {"data": "".join(out), "isclosed": ch.isclosed(), "repr_open": "open" in repr(f)}
+                try:
+                    w.write("late")
+                    st["write"] = "accepted"
+                except OSError:
+                    st["write"] = "OSError"
+                return st
+
+            import threading
+
+            box = []
+            t = threading.Thread(target=lambda: box.append(reader()), daemon=True)
+            t.start()
+            peer.feed(b"".join(codec.frame(M["CHANNEL_DATA"], ch.id, codec.encode(i, versioned=False)) for i in items)
+                      + codec.frame(M["CHANNEL_CLOSE"], ch.id))
+            t.join(10)
+            pre.off()
+            res.count("read_calls", 1)
+            res.count("eof_state_runs")
+            res.case(core.h64("eof_state", ln, k, tuple(items)))
+            label = f"items={items} " + (f"stall at line {ln[1]} hit {k}" if ln else f"noise run {k}")
+            if not box:
+                res.violation("channelfile-read-blocks", label)
+                continue
+            st = box[0]
+            if st["data"] != "".join(items):
+                res.violation("channelfile-differs-from-file:read:text", f"{label}: {st['data']!r}")
+            if st["write"] != "OSError" or not st["isclosed"] or st["repr_open"]:
+                res.violation("write-after-close-accepted" if st["write"] != "OSError" else "file-reports-eof-but-channel-open", f"{label}: {st}")
+        res.sample({"eof_state_runs": len(todo)})
+        peer.shutdown()
+    finally:
+        pre.uninstall()
+    return res
 
 
 def cases_exh(spec):
